@@ -758,7 +758,8 @@ package participle
 
 // The struct-tag lexer (struct.go): assumed contracts; its own index expressions are covered by GetField below.
 // slxOK: the tag lexer of a struct with at least one grammar field, positioned in some field, with a well-formed
-// peeking lexer over that field's tag. lexStruct establishes it whenever the struct has fields (parseType checks
+// peeking lexer over that field's tag. lexStruct establishes it whenever the struct has fields (proved: its
+// postcondition; parseType checks
 // NumField() before the first Peek), Peek and Next are proved to preserve it, and nothing else writes the struct
 // lexer; the callers' side of this invariant (they stop at the first error) is assumed, not checked: the
 // precondition is marked @assumed.
@@ -991,10 +992,21 @@ package participle
 //@   modifies mapof(g.typeNodes), family(strct), family(structLexer), family(lexer.PeekingLexer), family(lexer.Token)
 //@   use wfcLeaf(result0) at exit
 
-//@ func lexStruct
-//@   trusted
+// collectFieldIndexes: memory safety and termination of the walk over a struct type (reflect's own preconditions:
+// NumField / Field only on struct kinds, Field within range); every path it returns is non-empty. What the paths
+// are is the bounded field-index-paths stand-in (append on shared backing arrays is not modelled).
+//@ func collectFieldIndexes [C19 C01]
+//@   requires s != nil
+//@   ensures err == nil ==> forall(k, 0, len(out), len(out[k]) >= 1)
+//@   loop 1 invariant 0 <= i && (err == nil ==> forall(k, 0, len(out), len(out[k]) >= 1))
+//@   loop 1 nonterminating-ok
+//@   loop 2 invariant -1 <= rangeindex && rangeindex < len(children) && (err == nil ==> forall(k, 0, len(out), len(out[k]) >= 1))
+//@   loop 2 decreases len(children) - rangeindex
+//@ func lexStruct [C19]
+//@   requires s != nil
 //@   fresh result0
-//@   ensures result1 == nil ==> result0 != nil && len(result0.indexes) >= 0
+//@   ensures result1 == nil ==> result0 != nil && len(result0.indexes) >= 0 && result0.s == s && result0.field == 0
+//@   ensures result1 == nil && len(result0.indexes) > 0 ==> slxOK(result0)
 //@ global positionType != nil && tokensType != nil
 //@ func newStrct [C19]
 //@   requires typ != nil
